@@ -1,4 +1,4 @@
-import DFV.Lemmas.Rot
+import DFV.Lemmas.C12Obj
 /-!
 # C12 — quarter-turn rotations move values, vectors, validity and geometry together
 
@@ -202,5 +202,213 @@ theorem rotate90F_value (f g recv : Fld) (a1 a2 : String) (k : Int) (ref : Optio
       injection h with h; injection h with _ hg
       subst hg
       exact ⟨rot90_get _ _ _ _ _, fun _ => rot90_get _ _ _ _ _, fun hgt => absurd hgt hv⟩
+
+/-! ## object level: regions, meshes and fields -/
+open DFV.C14
+
+/-- **Rotation by `k` and by `k mod 4` is the same call** — on regions, meshes and fields, for
+every integer `k` (negative included), any axes, reference point and form: not only equal results
+but equal acceptance. -/
+theorem rotate_mod4 (r : Region) (m : Mesh) (f : Fld) (a1 a2 : String) (k : Int) (ref : Option (List Rat)) (b : Bool) :
+    rotate90R r a1 a2 (k % 4) ref b = rotate90R r a1 a2 k ref b ∧
+    stepM m (.rotate90 a1 a2 (k % 4) ref b) = stepM m (.rotate90 a1 a2 k ref b) ∧
+    rotate90F f a1 a2 (k % 4) ref b = rotate90F f a1 a2 k ref b :=
+  ⟨rotate90R_mod4 r a1 a2 k ref b, stepM_rot_mod4 m a1 a2 k ref b, rotate90F_mod4 f a1 a2 k ref b⟩
+
+/-- **Region: a turn by a multiple of four quarter turns is the identity** (corners, names, units,
+tolerance; either form, any reference point). -/
+theorem region_turn_zero (r : Region) (hr : r.Inv) (a1 a2 : String) (k : Int) (hk : k % 4 = 0) (ref : Option (List Rat))
+    (b : Bool) (x ret : Region) (h : rotate90R r a1 a2 k ref b = .ok (x, ret)) : ret = r ∧ x = r :=
+  rotate90R_zero r hr a1 a2 k hk ref b x ret h
+
+/-- **Region: composition.**  A turn by `k` followed by a turn by `l` in the same plane about the
+same reference point is the turn by `k + l`: the second turn is always accepted and both ways end
+in the same region (corners re-ordered, units swapped for odd totals) — any mix of forms. -/
+theorem region_compose (r : Region) (hr : r.Inv) (a1 a2 : String) (k l : Int) (R : List Rat) (b b' b'' : Bool)
+    (x1 r1 : Region) (h : rotate90R r a1 a2 k (some R) b = .ok (x1, r1)) :
+    ∃ r2, rotate90R r1 a1 a2 l (some R) b' = .ok (if b' then r2 else r1, r2) ∧
+          rotate90R r a1 a2 (k + l) (some R) b'' = .ok (if b'' then r2 else r, r2) :=
+  rotate90R_compose r hr a1 a2 k l R b b' b'' x1 r1 h
+
+/-- **Region: a turn followed by its reverse is the identity.** -/
+theorem region_inverse (r : Region) (hr : r.Inv) (a1 a2 : String) (k : Int) (R : List Rat) (b b' : Bool)
+    (x1 r1 : Region) (h : rotate90R r a1 a2 k (some R) b = .ok (x1, r1)) :
+    ∃ x2, rotate90R r1 a1 a2 (-k) (some R) b' = .ok (x2, r) := by
+  obtain ⟨r2, h2, h12⟩ := rotate90R_compose r hr a1 a2 k (-k) R b b' false x1 r1 h
+  have hz : (k + -k) % 4 = 0 := by simp
+  obtain ⟨e, _⟩ := rotate90R_zero r hr a1 a2 (k + -k) hz (some R) false _ r2 h12
+  rw [e] at h2
+  exact ⟨_, h2⟩
+
+/-- **Region: four quarter turns about the same reference point give back the region.** -/
+theorem region_four_turns (r : Region) (hr : r.Inv) (a1 a2 : String) (R : List Rat) (b : Bool) (x1 r1 : Region)
+    (h : rotate90R r a1 a2 1 (some R) b = .ok (x1, r1)) :
+    ∃ r2 r3, rotate90R r1 a1 a2 1 (some R) b = .ok (if b then r2 else r1, r2) ∧
+             rotate90R r2 a1 a2 1 (some R) b = .ok (if b then r3 else r2, r3) ∧
+             rotate90R r3 a1 a2 1 (some R) b = .ok (if b then r else r3, r) := by
+  obtain ⟨r2, s2, t2⟩ := rotate90R_compose r hr a1 a2 1 1 R b b b x1 r1 h
+  obtain ⟨r3, s3, t3⟩ := rotate90R_compose r hr a1 a2 (1 + 1) 1 R b b b _ r2 t2
+  obtain ⟨r4, s4, t4⟩ := rotate90R_compose r hr a1 a2 (1 + 1 + 1) 1 R b b false _ r3 t3
+  obtain ⟨e, _⟩ := rotate90R_zero r hr a1 a2 (1 + 1 + 1 + 1) (by decide) (some R) false _ r4 t4
+  rw [e] at s4
+  exact ⟨r2, r3, s2, s3, s4⟩
+
+/-- **Mesh: a turn by a multiple of four quarter turns is the identity** — in place the mesh (region,
+counts, bc, subregions) is unchanged; the copying form returns it with `bc` lower-cased by the
+constructor. -/
+theorem mesh_turn_zero (m : Mesh) (hm : m.Inv) (hs : SubInv m) (a1 a2 : String) (k : Int) (hk : k % 4 = 0)
+    (ref : Option (List Rat)) (b : Bool) (recv ret : Mesh) (h : stepM m (.rotate90 a1 a2 k ref b) = .ok (recv, ret)) :
+    ret = (if b then m else { m with bc := m.bc.toLower }) ∧ recv = m :=
+  stepM_rot_zero m hm hs a1 a2 k hk ref b recv ret h
+
+/-- **Mesh (in-place form): composition.**  A turn by `k` followed by a turn by `l` about the same
+reference point is the turn by `k + l` on region, counts and every subregion; the second turn is
+always accepted.  (`bc`: the letters are swapped twice resp. once — equal for the non-periodic
+conditions, see `mesh_inverse`.) -/
+theorem mesh_compose (m : Mesh) (hm : m.Inv) (hs : SubInv m) (a1 a2 : String) (k l : Int) (R : List Rat)
+    (m1 m1' : Mesh) (h : stepM m (.rotate90 a1 a2 k (some R) true) = .ok (m1, m1')) :
+    ∃ m2 m12, stepM m1' (.rotate90 a1 a2 l (some R) true) = .ok (m2, m2) ∧
+      stepM m (.rotate90 a1 a2 (k + l) (some R) true) = .ok (m12, m12) ∧
+      m2.region = m12.region ∧ m2.n = m12.n ∧ m2.subs = m12.subs ∧
+      m2.bc = rotBc (rotBc m.bc a1 a2 k) a1 a2 l ∧ m12.bc = rotBc m.bc a1 a2 (k + l) :=
+  stepM_rot_compose m hm hs a1 a2 k l R m1 m1' h
+
+/-- **Mesh: a turn followed by its reverse gives back region, counts and every subregion** (and
+the whole mesh for the non-periodic boundary conditions). -/
+theorem mesh_inverse (m : Mesh) (hm : m.Inv) (hs : SubInv m) (a1 a2 : String) (k : Int) (R : List Rat)
+    (m1 m1' : Mesh) (h : stepM m (.rotate90 a1 a2 k (some R) true) = .ok (m1, m1')) :
+    ∃ m2, stepM m1' (.rotate90 a1 a2 (-k) (some R) true) = .ok (m2, m2) ∧
+      m2.region = m.region ∧ m2.n = m.n ∧ m2.subs = m.subs ∧ (PlainBc m.bc → m2 = m) := by
+  obtain ⟨m2, m12, h2, h12, e1, e2, e3, e4, _⟩ := stepM_rot_compose m hm hs a1 a2 k (-k) R m1 m1' h
+  obtain ⟨e, _⟩ := stepM_rot_zero m hm hs a1 a2 (k + -k) (by simp) (some R) true _ m12 h12
+  simp only [if_true] at e
+  rw [e] at e1 e2 e3
+  refine ⟨m2, h2, e1, e2, e3, ?_⟩
+  intro hp
+  rw [plainBc_rot _ _ _ _ hp, plainBc_rot _ _ _ _ hp] at e4
+  cases m2; cases m; simp only at e1 e2 e3 e4; subst e1; subst e2; subst e3; subst e4; rfl
+
+/-- **Subregions move with the cells**: an accepted mesh rotation turns the region and every
+subregion by the same corner map `rotCoord · R i1 i2 k` about the same reference point `R` (the
+given one, else the centre of the mesh region), swaps the counts for odd `k`, keeps names and
+order. -/
+theorem subregions_turn_with_mesh (m : Mesh) (hd : ∀ p ∈ m.subs, p.2.dims = m.region.dims) (a1 a2 : String) (k : Int)
+    (ref : Option (List Rat)) (b : Bool) (recv ret : Mesh) (h : stepM m (.rotate90 a1 a2 k ref b) = .ok (recv, ret)) :
+    ∃ i1 i2, m.region.dim2index a1 = .ok i1 ∧ m.region.dim2index a2 = .ok i2 ∧
+      ret.region = target m.region (rotCoord m.region.pmin (ref.getD m.region.center) i1 i2 k)
+        (rotCoord m.region.pmax (ref.getD m.region.center) i1 i2 k) (rotUnits m.region.units i1 i2 k) ∧
+      ret.n = rotN m.n i1 i2 k ∧
+      List.Forall₂ (fun p q => q.1 = p.1 ∧
+          q.2.pmin = (target p.2 (rotCoord p.2.pmin (ref.getD m.region.center) i1 i2 k)
+            (rotCoord p.2.pmax (ref.getD m.region.center) i1 i2 k) (rotUnits p.2.units i1 i2 k)).pmin ∧
+          q.2.pmax = (target p.2 (rotCoord p.2.pmin (ref.getD m.region.center) i1 i2 k)
+            (rotCoord p.2.pmax (ref.getD m.region.center) i1 i2 k) (rotUnits p.2.units i1 i2 k)).pmax)
+        m.subs ret.subs :=
+  stepM_rot_subs m hd a1 a2 k ref b recv ret h
+
+/-- **Region, mesh and field rotate consistently; names stay.**  The mesh of the rotated field is
+what `Mesh.rotate90` (copying) returns for the field's mesh, its region is what `Region.rotate90`
+returns for the mesh's region; dimension names, component names, the component-to-axis mapping,
+the unit and the number of components are unchanged; validity is turned by the same `np.rot90` as
+the values. -/
+theorem rotate_consistent (f : Fld) (hf : FldInv f) (a1 a2 : String) (k : Int) (ref : Option (List Rat)) (b : Bool)
+    (x g : Fld) (h : rotate90F f a1 a2 k ref b = .ok (x, g)) :
+    (∃ y, stepM f.mesh (.rotate90 a1 a2 k ref false) = .ok (y, g.mesh)) ∧
+    (∃ z, rotate90R f.mesh.region a1 a2 k ref false = .ok (z, g.mesh.region)) ∧
+    g.mesh.region.dims = f.mesh.region.dims ∧ g.vdims = f.vdims ∧ g.vmap = f.vmap ∧ g.unit = f.unit ∧
+    g.nvdim = f.nvdim ∧
+    ∃ i1 i2, f.mesh.region.dim2index a1 = .ok i1 ∧ f.mesh.region.dim2index a2 = .ok i2 ∧
+      g.mesh.n = rotN f.mesh.n i1 i2 k ∧ g.valid = rot90 f.valid i1 i2 k ∧ g.data.shape = (rot90 f.data i1 i2 k).shape ∧
+      ∀ j, g.valid.get j = f.valid.get (srcIdx f.mesh.n i1 i2 k j) := by
+  obtain ⟨y, m', i1, i2, hm', d1, d2, e1, e2, e3, e4, e5, e6, e7, _⟩ := rotate90F_inv f a1 a2 k ref b x g h
+  obtain ⟨_, _, hn, z, hz⟩ := stepM_keeps f.mesh hf.1 _ _ _ hm'
+  obtain ⟨_, _, _, _, _, _, _, hdims⟩ := stepM_rot_axes f.mesh hf.1 a1 a2 k ref false y m' hm'
+  refine ⟨⟨y, e1 ▸ hm'⟩, ⟨z, by rw [e1]; exact hz⟩, by rw [e1]; exact hdims, e3, e4, e5, e2, i1, i2, d1, d2, ?_, e6, ?_, ?_⟩
+  · rw [e1, hn]; simp only [opN, d1, d2]
+  · rcases e7 with ⟨_, e⟩ | ⟨_, _, _, _, _, e⟩ <;> rw [e] <;> rfl
+  · intro j; rw [e6, rot90_get, hf.2.2]
+
+/-- **`np.rot90` composes**: turning an array by `k` and then by `l` in the same plane gives the
+array turned by `k + l` — same shape, same entry at every index of that shape (hence `k` then
+`−k`, and four quarter turns, give back every entry). -/
+theorem rot90_compose {α} (a : NDA α) (p q : Nat) (k l : Int) (hpq : p ≠ q) (hp : p < a.shape.length) (hq : q < a.shape.length) :
+    (rot90 (rot90 a p q k) p q l).shape = (rot90 a p q (k + l)).shape ∧
+    ∀ j, inRange (rot90 a p q (k + l)).shape j = true →
+      (rot90 (rot90 a p q k) p q l).get j = (rot90 a p q (k + l)).get j :=
+  rot90_compose' a p q k l hpq hp hq
+
+/-- **Field: a turn by a multiple of four quarter turns is the identity** on values, validity,
+labels and mesh (the mesh comes back through the constructor: `bc` lower-cased). -/
+theorem field_turn_zero (f : Fld) (hf : FldInv f) (hs : SubInv f.mesh) (a1 a2 : String) (k : Int) (hk : k % 4 = 0)
+    (ref : Option (List Rat)) (b : Bool) (x g : Fld) (h : rotate90F f a1 a2 k ref b = .ok (x, g)) :
+    g = { f with mesh := { f.mesh with bc := f.mesh.bc.toLower } } :=
+  rotate90F_zero f hf hs a1 a2 k hk ref b x g h
+
+/-- **Field arrays: composition.**  If a field is turned by `k`, the result by `l`, and the
+original by `k + l` (any reference points, any forms), the two final fields have validity and
+value arrays of the same shape with the same entries at every index: validity and scalar values
+literally, vector values with the two mapped components turned by `Q^l Q^k` resp. `Q^(k+l)` of
+the same source value (equal by `rotVec_compose`); labels, mapping and unit agree. -/
+theorem field_compose_arrays (f : Fld) (hf : FldInv f) (a1 a2 : String) (k l : Int)
+    (ref ref' ref'' : Option (List Rat)) (b b' b'' : Bool) (x1 g1 x2 g2 x12 g12 : Fld)
+    (h1 : rotate90F f a1 a2 k ref b = .ok (x1, g1)) (h2 : rotate90F g1 a1 a2 l ref' b' = .ok (x2, g2))
+    (h12 : rotate90F f a1 a2 (k + l) ref'' b'' = .ok (x12, g12)) :
+    g2.valid.shape = g12.valid.shape ∧ g2.data.shape = g12.data.shape ∧
+    (∀ j, inRange g12.valid.shape j = true → g2.valid.get j = g12.valid.get j) ∧
+    (f.nvdim ≤ 1 → ∀ j, inRange g12.data.shape j = true → g2.data.get j = g12.data.get j) ∧
+    (f.nvdim > 1 → ∃ i1 i2 c1 c2, ∀ j, inRange g12.data.shape j = true →
+        g2.data.get j = rotVec (rotVec ((rot90 f.data i1 i2 (k + l)).get j) c1 c2 k) c1 c2 l ∧
+        g12.data.get j = rotVec ((rot90 f.data i1 i2 (k + l)).get j) c1 c2 (k + l)) ∧
+    g2.nvdim = g12.nvdim ∧ g2.vdims = g12.vdims ∧ g2.vmap = g12.vmap ∧ g2.unit = g12.unit :=
+  rotate90F_compose_arrays f hf a1 a2 k l ref ref' ref'' b b' b'' x1 g1 x2 g2 x12 g12 h1 h2 h12
+
+/-- **Mesh (copying form): composition.**  If the turn by `k`, the turn of its result by `l` and the
+turn by `k + l` about the same reference point are all accepted by the constructor, the two final
+meshes have the same region, counts and subregions — and are equal for non-periodic `bc`. -/
+theorem mesh_compose_copy (m : Mesh) (hm : m.Inv) (hs : SubInv m) (a1 a2 : String) (k l : Int) (R : List Rat)
+    (y1 m1 y2 m2 y12 m12 : Mesh)
+    (h1 : stepM m (.rotate90 a1 a2 k (some R) false) = .ok (y1, m1))
+    (h2 : stepM m1 (.rotate90 a1 a2 l (some R) false) = .ok (y2, m2))
+    (h12 : stepM m (.rotate90 a1 a2 (k + l) (some R) false) = .ok (y12, m12)) :
+    m2.region = m12.region ∧ m2.n = m12.n ∧ m2.subs = m12.subs ∧ (PlainBc m.bc → m2 = m12) :=
+  stepM_rot_compose_copy m hm hs a1 a2 k l R y1 m1 y2 m2 y12 m12 h1 h2 h12
+
+/-- **Field: a turn followed by its reverse gives back the field** (hence also four quarter turns,
+by `rotate_mod4` and `field_compose_arrays`): mesh region, counts and subregions (the whole mesh
+for non-periodic `bc`), labels, mapping, unit; validity and values at every cell — scalar values
+literally, vector values as `Q^(−k) Q^k v`, which is `v` whenever the two mapped components are
+distinct positions inside the value. -/
+theorem field_inverse (f : Fld) (hf : FldInv f) (hs : SubInv f.mesh) (a1 a2 : String) (k : Int) (R : List Rat)
+    (b b' : Bool) (x1 g1 x2 g2 : Fld)
+    (h1 : rotate90F f a1 a2 k (some R) b = .ok (x1, g1)) (h2 : rotate90F g1 a1 a2 (-k) (some R) b' = .ok (x2, g2)) :
+    g2.mesh.region = f.mesh.region ∧ g2.mesh.n = f.mesh.n ∧ g2.mesh.subs = f.mesh.subs ∧
+    (PlainBc f.mesh.bc → g2.mesh = f.mesh) ∧
+    g2.nvdim = f.nvdim ∧ g2.vdims = f.vdims ∧ g2.vmap = f.vmap ∧ g2.unit = f.unit ∧
+    g2.valid.shape = f.valid.shape ∧ g2.data.shape = f.data.shape ∧
+    ∀ j, inRange f.mesh.n j = true →
+      g2.valid.get j = f.valid.get j ∧
+      (f.nvdim ≤ 1 → g2.data.get j = f.data.get j) ∧
+      (f.nvdim > 1 → ∃ c1 c2, (f.rDim a1).bind f.vdimIndex = some c1 ∧ (f.rDim a2).bind f.vdimIndex = some c2 ∧
+        g2.data.get j = rotVec (rotVec (f.data.get j) c1 c2 k) c1 c2 (-k) ∧
+        (c1 ≠ c2 → c1 < (f.data.get j).length → c2 < (f.data.get j).length → g2.data.get j = f.data.get j)) :=
+  rotate90F_inverse f hf hs a1 a2 k R b b' x1 g1 x2 g2 h1 h2
+
+/-- non-vacuity of the object-level theorems: on the region of `exP`, the mesh `exP` (two
+subregions) and the vector field `exF`, a quarter turn x→y about the point (1, 2, 3) is accepted
+in both forms, and so are the follow-up turns the theorems speak about. -/
+example : exP.Inv ∧ SubInv exP ∧ FldInv exF ∧ PlainBc exP.bc := ⟨exP_inv, exP_subInv, exF_inv, Or.inl rfl⟩
+example : (match rotate90R exP.region "x" "y" 1 (some [1, 2, 3]) true with | .ok (_, r) => r.pmin | .error _ => []) = [-3, 1, 0] := by
+  decide +kernel
+example : (match stepM exP (.rotate90 "x" "y" 1 (some [1, 2, 3]) true) with | .ok (_, m) => m.n | .error _ => []) = [6, 4, 1] := by
+  decide +kernel
+example : (match rotate90F exF "x" "y" (-3) (some [1, 2, 3]) false with
+    | .ok (_, g) => (g.mesh.n, g.data.get [0, 0, 0]) | .error _ => ([], [])) = ([6, 4, 1], [-2, 1, 3]) := by
+  decide +kernel
+example : (match rotate90F exF "x" "y" (-3) (some [1, 2, 3]) false with
+    | .ok (_, g) => (match rotate90F g "x" "y" 3 (some [1, 2, 3]) true with
+        | .ok (_, g2) => (g2.mesh.n, g2.data.get [3, 5, 0]) | .error _ => ([], []))
+    | .error _ => ([], [])) = ([4, 6, 1], [1, 2, 3]) := by
+  decide +kernel
+
 
 end DFV.C12
